@@ -1,7 +1,7 @@
 (* C13 -- filter objects survive conversion to text and back (no filter injection). *)
 From Coq Require Import ZArith NArith List Bool.
 From Coq.Strings Require Import Byte.
-From SV Require Import Base.Bytes Base.Py Rx.Syntax Gen.Generated Msg.Types Filt.Text Filt.Value Filt.Simple Filt.RoundTrip.
+From SV Require Import Gen.Sharing Base.Bytes Base.Py Rx.Syntax Gen.Generated Msg.Types Filt.Text Filt.Value Filt.Simple Filt.RoundTrip.
 Import ListNotations.
 
 (* [print_filter] mirrors __str__ of the ten filter classes, [from_string] mirrors
@@ -51,8 +51,16 @@ Proof.
   - vm_compute. reflexivity.
 Qed.
 
+(* The theorems above are about functions and values; that the text half of _filter.py (from_string, __str__ and their helpers) keeps no state
+   between calls and shares none between objects is read off the source by tools/audit.py on every run
+   (Gen/Sharing.v): no memoisation, no module- or class-level container that is written, no mutable default, no
+   attribute written behind a dataclass, no parameter stored without a copy. *)
+Theorem C13_audit_no_state_between_calls : (hidden_state_filter_text = [])%list.
+Proof. exact eq_refl. Qed.
+
 Print Assumptions C13_from_string_of_str.
 Print Assumptions C13_text_round_trip.
 Print Assumptions C13_value_round_trip.
 Print Assumptions C13_value_text_is_inert.
 Print Assumptions C13_text_is_ascii.
+Print Assumptions C13_audit_no_state_between_calls.
